@@ -3,6 +3,7 @@ package props
 import (
 	"fmt"
 	"go/constant"
+	"go/types"
 	"strconv"
 	"strings"
 
@@ -19,7 +20,7 @@ func init() {
 		Explanation: "C01.fmt: both format constants that reach internal.Bprintf from date.DefaultFormatter (selected by FormatBasic) are read by meaning: integer verbs, zero-padded, minimum 4/2/2 digits, separated by '-','-' (extended) or by nothing (basic), nothing before or after; the three arguments are year, month, day of the receiver in that order (symbolic evaluation, canonical root±const form). " +
 			"C01.enc: zero-based encoding: every store into year/month/day is (calendar component) − 1 or 0 for the zero time, every read leaving the type (Date, Year, Month, Day, Time) is field + 1 with the right sign/zero extension. " +
 			"C01.lang: every canonical text D{4,9}-MM-DD / D{4,9}MMDD with MM 01..12 and DD 01..31 lies in the parser's accepted layout language (regexp ∩ separator decision table); capture groups 2 and 3 have fixed width 2, group 1 is D{4,9}; captures flow through Atoi into New(year, month, day) in that order. " +
-			"C01.buffer: internal.Bprintf and date.DefaultFormatter hand back the caller's buffer extended by append-only operations, never storage shared with a later call (the summary C01.fmt relies on; rule shared with C16). C01.enc also covers date.New = FromTime(time.Date(y,m,d,0,0,0,0,UTC)). C01.limit: the default MaxInputLength admits the longest canonical text for years ≤ 9999. S-DELEG: MarshalText/String/Format/UnmarshalText reach DefaultFormatter/DefaultParser only through the package-level Formatter/Parser with the documented flag; verb table b/e/s.",
+			"C01.buffer: internal.Bprintf and date.DefaultFormatter hand back the caller's buffer extended by append-only operations, never storage shared with a later call (the summary C01.fmt relies on; rule shared with C16). C01.enc also covers date.New = FromTime(time.Date(y,m,d,0,0,0,0,UTC)). C01.paths: MarshalText/String/Format are in the method set of the value type, UnmarshalText in that of the pointer, and neither has a method the standard JSON/XML encoders prefer to the text methods (MarshalJSON, UnmarshalXML, …). C01.parse: the parser's accepted value is New(number of capture 1, 2, 3), accepted only when the constructed date has those components, on the extended and basic layouts with 4- and 9-digit years and with the rule bit clear or set. C01.limit: the default MaxInputLength admits the longest canonical text for years ≤ 9999. S-DELEG: MarshalText/String/Format/UnmarshalText reach DefaultFormatter/DefaultParser only through the package-level Formatter/Parser with the documented flag; verb table b/e/s.",
 		NotDecided:  []string{"time.Date∘Time.Date is the identity on real dates (trusted summary)", "behaviour for negative years or years beyond int32", "encoding/json and encoding/xml call MarshalText/UnmarshalText (stdlib)"},
 		Assumptions: []string{"fmt %0Nd prints at least N digits, zero padded, for non-negative integers"},
 		Technique:   "format-string reading + symbolic evaluation (affine/bit provenance) + regular-language inclusion",
@@ -33,6 +34,11 @@ func runC01(e *Env) {
 	ruleDeleg(e, "C01.deleg", "date")
 	ruleNewDeleg(e, "C01.enc")
 	ruleLimitAccept(e, "C01.limit", "date")
+	ruleC01Paths(e)
+	// "parsing that text … returns a date equal to the original": the accepted value is New(the three written
+	// numbers) for every layout and year width (the construction half of C09's decision tree)
+	e.As(map[string]string{"C09.valid": "C01.parse", "C09.comp": "C01.parse"}, func() { ruleC09Sem(e) })
+	e.S.Floor("C01.parse", 13)
 	// C01.fmt takes Bprintf as "append the formatted text to buf": that summary is an obligation of its own —
 	// the bytes handed back are the caller's buffer extended, not storage shared with later calls
 	if fs := funcs(e.Fn("C01.buffer", "date", "DefaultFormatter"), e.Fn("C01.buffer", "internal", "Bprintf")); len(fs) == 2 {
@@ -42,10 +48,52 @@ func runC01(e *Env) {
 		})
 	}
 	e.S.Floor("C01.buffer", 4)
-	e.S.Floor("C01.fmt", 8)
+	e.S.Floor("C01.fmt", 9)
 	e.S.Floor("C01.enc", 12)
 	e.S.Floor("C01.lang", 6)
 	e.S.Floor("C01.deleg", 14)
+}
+
+// ruleC01Paths: the JSON and XML paths of the property are the text methods only if the standard encoders pick
+// them: MarshalText/String/Format in the method set of the value type, UnmarshalText in that of the pointer, and no
+// method of higher priority for encoding/json or encoding/xml (MarshalJSON, UnmarshalJSON, MarshalXML, …) on either.
+func ruleC01Paths(e *Env) {
+	const rule = "C01.paths"
+	sp := e.P.ByName["date"]
+	if sp == nil || sp.Type("Date") == nil {
+		e.S.Unk(rule, "date.Date", "anchor", "type not found", "")
+		return
+	}
+	T := sp.Type("Date").Type()
+	has := func(t types.Type, name string) bool {
+		ms := e.P.SSA.MethodSets.MethodSet(t)
+		for i := 0; i < ms.Len(); i++ {
+			if ms.At(i).Obj().Name() == name {
+				return true
+			}
+		}
+		return false
+	}
+	for _, m := range []string{"MarshalText", "String", "Format"} {
+		if has(T, m) {
+			e.S.Ok(rule, "date.Date", m, "in the method set of the value type (picked for values and pointers alike)", "")
+		} else {
+			e.S.Bad(rule, "date.Date", m, m+" is not in the method set of the value type date.Date: fmt and the encoders do not reach it for non-addressable values", "", "")
+		}
+	}
+	if has(types.NewPointer(T), "UnmarshalText") {
+		e.S.Ok(rule, "date.Date", "UnmarshalText", "in the method set of *date.Date", "")
+	} else {
+		e.S.Bad(rule, "date.Date", "UnmarshalText", "UnmarshalText is not in the method set of *date.Date", "", "")
+	}
+	for _, m := range []string{"MarshalJSON", "UnmarshalJSON", "MarshalXML", "UnmarshalXML", "MarshalXMLAttr", "UnmarshalXMLAttr"} {
+		if has(types.NewPointer(T), m) {
+			e.S.Unk(rule, "date.Date", m, m+" takes priority over the text methods in the standard encoder; its output is not covered by the rules of the text path", "")
+		} else {
+			e.S.Ok(rule, "date.Date", m, "absent: the standard encoder falls through to the text methods", "")
+		}
+	}
+	e.S.Floor(rule, 10)
 }
 
 func ruleC01Fmt(e *Env) {
@@ -56,6 +104,9 @@ func ruleC01Fmt(e *Env) {
 	if fn == nil || bp == nil || a == nil {
 		return
 	}
+	// the rule reads the format and its arguments at the call of Bprintf: that Bprintf hands them to fmt unchanged
+	// is an obligation of this property too
+	ruleBprintf(e, rule, bp)
 	site := flow.FnName(fn)
 	basic, ok := tabConstInt(e, "date", "FormatBasic")
 	if !ok {
